@@ -1,10 +1,13 @@
 import GoDcp.Props.C10Ha
 /-!
-# C10 (kubernetesHa): an orphaned follower is never taken in again by the loop bodies alone
+# C10 (kubernetesHa): an instance WITHOUT `leaderService` is never taken in again by the loop bodies alone
 
 `orphan_stays`: an instance that is not promoted, has no `leaderService`, and to which nobody holds a working
 connection stays so under ANY sequence of loop bodies (`hb`, `hbFollow`, `hbPing`, `hbRemove`, `mon`) of ANY
-instances, and the numbering it holds never changes.
+instances, and the numbering it holds never changes.  Since commit 39ec43d (finding F17) a failed re-register no
+longer leads into this state (`Props/C10Ha hbFollow_keeps_leader`, `ha_partition_heals`); what still does: a LIVING
+leader that lost the lease (`OnBecomeLeader` cleared `leaderService`, the elector has stopped:
+`Props/C10HaRefute ha_orphan_exleader_refuted`) and a failed `NewClient` inside `OnBecomeFollower`.
 -/
 namespace GoDcp.HaMembership
 open GoDcp.Membership List
@@ -122,8 +125,7 @@ theorem keeps_hbFollow {F : Id} {s : State} (ho : Orphan s F) (i : Id) : Keeps F
       split
       · exact Keeps.refl F s
       · split
-        · apply Keeps.nf
-          exact Keeps.updLeader s hi none
+        · exact Keeps.refl F s
         · split
           · rename_i s2 hr
             obtain ⟨rfl, -, -⟩ := registerAt_eq hr
@@ -131,7 +133,6 @@ theorem keeps_hbFollow {F : Id} {s : State} (ho : Orphan s F) (i : Id) : Keeps F
             refine Keeps.thenAdd ?_ _ hi
             exact Keeps.updLeader s hi _
           · apply Keeps.nf
-            refine Keeps.thenLeader ?_ hi none
             exact Keeps.updLeader s hi _
 
 theorem keeps_hb {F : Id} {s : State} (ho : Orphan s F) (i : Id) : Keeps F s (hb s i) := by
